@@ -18,9 +18,9 @@ func (c09) Technique() string {
 }
 func (c09) Runs(tier string) int {
 	if tier == "thorough" {
-		return 6000000
+		return 9000000
 	}
-	return 400000
+	return 600000
 }
 func (c09) Rule() string {
 	return "world built by a seeded history (nested stacks/conditions, random options, policies, mutex); SetReadOnly(true) on a random Stack or Condition; burst of 2-9 calls drawn from EVERY exported method (reflection) with 3 systematically different argument variants per chosen method, on the fenced object or on neighbours with the fenced object as argument; 30% of runs issue the burst from 2-3 tasks under the scheduler; then SetReadOnly(false) and mutators that must work again. non-trivial = at least 2 different mutator methods were attempted under the fence; distinct = hash(fenced kind, method+variant sequence)"
